@@ -42,8 +42,11 @@ fn run_with(c: &Case, source: &SourceSpec) -> Result<(Vec<Vec<u8>>, Option<Vec<S
     } else {
         // a carousel never ends by itself: record the wanted number of complete transfers
         let (mut polls, mut pkts) = (0usize, 0usize);
+        // (StopTransfer events are counted incrementally: the log grows by one record per packet)
+        let (mut stops, mut seen) = (0usize, 0usize);
         loop {
-            let stops = drv.log.iter().filter(|r| matches!(r.kind, RecKind::Stop(_))).count();
+            stops += drv.log[seen..].iter().filter(|r| matches!(r.kind, RecKind::Stop(_))).count();
+            seen = drv.log.len();
             if stops >= c.carousel_transfers as usize {
                 break;
             }
